@@ -8,9 +8,12 @@ trap 'rm -rf "$D"' EXIT
 rsync -a --exclude .git /repo/ "$D/"
 if [ "$1" = "-e" ]; then
   sed -i "$2" "$D/$3"; shift 3
+elif [ "$1" = "-p" ]; then
+  perl -0pi -e "$2" "$D/$3"; shift 3
 else
   (cd "$D" && patch -p1 -s < "$1"); shift
 fi
 [ "$1" = "--" ] && shift
 (cd "$D" && go build ./... ) || { echo "MUTANT DOES NOT COMPILE"; exit 3; }
-/verif/bin/govc "$@" -repo "$D"
+SUB="$1"; shift
+/verif/bin/govc "$SUB" -repo "$D" "$@"
